@@ -478,6 +478,14 @@ impl Value {
         if irank >= 0 {
             // Positive rank
             if rank >= shape.len() {
+                // The same limit that reshape and range put on the number of dimensions
+                if rank >= 99 {
+                    return Err(env.error(format!(
+                        "Rank {} is too many dimensions for {}",
+                        rank,
+                        Primitive::Rerank.format()
+                    )));
+                }
                 for _ in 0..rank - shape.len() + 1 {
                     shape.prepend(1);
                 }
@@ -670,6 +678,14 @@ impl<T: ArrayValue> Array<T> {
             }
             // Keep 1 is a no-op
             1 => self,
+            // Rows without elements have nothing to repeat,
+            // but the new shape must still be valid
+            _ if self.row_len() == 0 => {
+                validate_size::<T>([count].into_iter().chain(self.shape.iter().copied()), env)?;
+                self.shape[0] *= count;
+                self.validate();
+                self
+            }
             // Keep ≥2 is a repeat
             _ => {
                 let mut new_data = EcoVec::with_capacity(elem_count);
@@ -708,7 +724,9 @@ impl<T: ArrayValue> Array<T> {
         let row_len = self.row_len();
         let mut new_data = EcoVec::with_capacity(new_row_count * row_len);
         let delta = self.row_count() as f64 / new_row_count as f64;
-        for k in 0..new_row_count {
+        // Rows without elements have nothing to copy
+        let copied_row_count = if row_len == 0 { 0 } else { new_row_count };
+        for k in 0..copied_row_count {
             let t = k as f64 * delta;
             let fract = t.fract();
             let src_row = if fract <= f64::EPSILON || fract >= 1.0 - f64::EPSILON {
